@@ -13,21 +13,8 @@ class _Cexptrk_Potential_Function(object):
   def __init__(self, potential_form_tuple):
     """:param potential_form_tuple: PotentialFormTuple describing this function"""
     self._potential_form_tuple = potential_form_tuple
-    self._check_label()
     self._local_symbol_table = self._init_symbol_table()
     self._expression = None
-
-  def _check_label(self):
-    # A label that is a function of the expression language ('root', 'exp'...) cannot be registered with the symbol
-    # table of any other formula: refuse it whether or not the model has a formula that would try.
-    label = self._potential_form_tuple.signature.label
-    scratch = cexprtk.Symbol_Table({})
-    try:
-      scratch.functions[label] = lambda *args: 0.0
-    except cexprtk._exceptions.NameShadowException as e:
-      raise Potential_Form_Exception("Name clash for potential-form '{}': {}".format(label, str(e)))
-    except KeyError as e:
-      raise Potential_Form_Exception("'{}' cannot be used as the label of a potential-form: {}".format(label, e.args[0]))
 
   def _init_symbol_table(self):
     local_symbol_table = cexprtk.Symbol_Table({}, add_constants = True)
